@@ -639,10 +639,14 @@ def fam_chomsky(rec, rng):
         o = call(nc.cfg_apply_chomsky, adapt.build_cfg(RG), phase, S)
         if o.ok:
             bases[phase] = adapt.cfg_ref(o.value)
-    for phase in range(1, 6):
+    bases[0] = RG          # phase 0: only the language is compared
+    for phase in range(0, 6):
         if phase not in bases:
             continue
         answers = [('library_answer', bases[phase])] + mut.cfg_mutants(bases[phase], rng, 6)
+        # the same rules with the rules of another variable first: in the simple format that variable is the start variable
+        for tw in cfgg.start_twins(bases[phase])[:3]:
+            answers.append(('same_rules_other_start_variable', cf.make(tw[0], tw[1], [r for r in tw[2] if r[0] == tw[3]] + [r for r in tw[2] if r[0] != tw[3]], tw[3])))
         if phase - 1 in bases:
             answers.append(('answer_of_previous_phase', bases[phase - 1]))
         B0 = bases[phase]
